@@ -53,6 +53,8 @@ mod timestamp;
 #[cfg(feature = "rkyv-support")]
 pub use orswot::BadState;
 pub use orswot::{Key, OrSWotSet, StateChanges};
+#[cfg(feature = "verif-hooks")]
+pub use timestamp::verif;
 pub use timestamp::{
     get_datacake_timestamp,
     get_unix_timestamp_ms,
